@@ -26,7 +26,9 @@ Python API (small on purpose; C28/C29/C30/C37 and later C31/C32/C33 build on it)
 -------------------------------------------------------------------------------
   AggHarness(db="memory"|"file", t0=1_700_000_000.0, secret="", webpush_factory=None)
   h.now                                   virtual epoch seconds (assign or h.advance(dt))
-  h.run(coro)                             run a coroutine on the private loop, then settle spawned tasks
+  h.run(coro)                             run a coroutine on the private loop (h.loop), then let spawned tasks settle
+                                          (bounded: tasks blocked on something the caller controls are left pending;
+                                          h.pending_tasks() counts them).  Concurrency: h.run(asyncio.gather(a(), b())).
   h.aggregator / h.dispatcher / h.handlers / h.publisher / h.webpush_publisher      current incarnation
   h.generation                            number of aggregator restarts so far
 
